@@ -423,6 +423,7 @@ def argOutcome (kind : String) : String :=
   | "ptr" => "ok:8 ok:8 ok:1"              -- &S{A int32}: field header + 4 + STOP
   | "struct" => "ok:8 ok:8 err"            -- by value: encodable, not decodable
   | "nilptr" => "ok:1 ok:1 err"            -- typed nil *S: written as a lone STOP
+  | "decstruct" => "err"                   -- DecodeObject alone on a struct by value, before / after use
   | _ => "panic:ordinary err err"          -- nil, int, *int, **S, slice, map, string, func, chan
 
 end Frugal
